@@ -205,6 +205,16 @@ CLAIMED = {
         "fixed pair of source row sets.",
    technique="TLA+ whole-run oracle (TLC) + execution of sampled configurations on the real code + TLC trace validation at P-level",
    design="4/C01"),
+ "C18": dict(
+   text="spec/Hits.tla defines hits (maximal runs of in-record samples at or above the per-channel threshold, with time, length, area, "
+        "height, first-maximum time, record index), record links, the samples kept by cut_outside_hits (hit window inside the valid "
+        "samples plus its continuation into the adjacent fragment of the same pulse, metadata untouched) and baseline / integration "
+        "with exact rational arithmetic; TLC enumerates every waveform of the scope, checks the internal laws (hits disjoint, cover "
+        "exactly the samples above threshold) and prints the expected results, which are compared with the real numba functions.",
+   note="Records of 4 samples over amplitude alphabets of 2-4 values; float32 fields compared with tolerance 1e-4, baseline_rms through "
+        "its square; quick tier samples the larger enumerations.",
+   technique="TLA+ definitional oracle enumerated by TLC + replay of every case into the real functions",
+   design="4/C18"),
 }
 NOT_BUILT = "decision procedure (TLA+ module + binding) not built yet in this session; see DESIGN.md section 4 for the plan"
 
